@@ -27,7 +27,7 @@ def gen_case(rng):
     residues = []
     atoms = {0: rng.sample(NAMES, rng.randint(2, 5))}
     for k in range(nres):
-        num = rng.choice([n for n in range(1, 7) if n not in [r[0] for r in residues]])
+        num = rng.choice([n for n in (1, 2, 3, 4, 5, 6, 10, 20, 100, 110) if n not in [r[0] for r in residues]])     # 1 / 10 / 100: numbers that differ by trailing zeros only
         cls = rng.choice(classes + [''])
         residues.append((num, cls))
         atoms[num] = rng.sample(NAMES, rng.randint(1, 5))
@@ -37,7 +37,13 @@ def gen_case(rng):
         k += 1
         lines.append('%s 1 %.3f %.3f %.3f 11.0 0.04' % (nm, 0.1 * k, 0.2, 0.3))
     for num, cls in residues:
-        lines.append('RESI %d %s' % (num, cls) if cls and rng.random() < 0.5 else ('RESI %s %d' % (cls, num) if cls else 'RESI %d' % num))
+        form = rng.random()
+        if cls and form < 0.25:
+            lines.append('RESI %s %d %d' % (cls, num, rng.choice([7, 8, 9, 30, 1000])))      # class number alias: the alias is not the residue number
+        elif cls and form < 0.6:
+            lines.append('RESI %d %s' % (num, cls))
+        else:
+            lines.append('RESI %s %d' % (cls, num) if cls else 'RESI %d' % num)
         for nm in atoms[num]:
             k += 1
             lines.append('%s 1 %.3f %.3f %.3f 11.0 0.04' % (nm if rng.random() < 0.8 else nm.lower(), 0.01 * k, 0.5, 0.3))
